@@ -412,6 +412,9 @@ pub fn gen_c08(tier: &str, seed: u64) -> Vec<Vec<String>> {
     // … and with reopen_outputfile() between the records, the file still in place or moved away:
     // the accounting goes on with what the file at the path holds
     v.extend(gen_with(Opts { prop: "C18", size: true, age: false, force_rot: true, restarts: 0, cleanup: false, faults: false, ext: true, modes: false, max_ops: 40, namings: ALL, foreign: false, exist: false, bg: 0 }, tier, seed ^ 0xC08E, 150, 2000).into_iter().map(|mut c| { c[0] = c[0].replacen("C18 ", "C08 e", 1); c }));
+    // … and with reset_flw onto the SAME family while records are still buffered: the size found at
+    // start (append) is the size AFTER the old writer has flushed
+    v.extend(gen_same_spec_reset("C08", tier, seed ^ 0xC085));
     v
 }
 pub fn gen_c09(tier: &str, seed: u64) -> Vec<Vec<String>> {
@@ -768,7 +771,7 @@ fn gen_c15_chunks(tier: &str, seed: u64) -> Vec<Vec<String>> {
 pub fn gen_c15(tier: &str, seed: u64) -> Vec<Vec<String>> {
     let mut v = gen_c15_chunks(tier, seed);
     v.extend(gen_c15_records(tier, seed));
-    v.extend(gen_c15_same_spec_reset(tier, seed));
+    v.extend(gen_same_spec_reset("C15", tier, seed));
     v
 }
 
@@ -778,7 +781,7 @@ fn gen_c15_records(tier: &str, seed: u64) -> Vec<Vec<String>> {
 /// C15: `reset_flw` onto the SAME file / family in every write mode — what is still in the old
 /// writer's buffer must be in the file before the new writer looks at it (size found when
 /// appending, truncation otherwise); the files after shutdown are those of the direct mode
-fn gen_c15_same_spec_reset(tier: &str, seed: u64) -> Vec<Vec<String>> {
+pub fn gen_same_spec_reset(prop: &str, tier: &str, seed: u64) -> Vec<Vec<String>> {
     let mut root = Rng::new(seed ^ 0xC15A);
     let mut cases = Vec::new();
     for k in 0..n_cases(tier, 120, 1500) {
@@ -792,7 +795,7 @@ fn gen_c15_same_spec_reset(tier: &str, seed: u64) -> Vec<Vec<String>> {
         let n = *r.pick(&[5u64, 40, 90]);
         let rot = if r.chance(1, 4) { None } else { Some(format!("{n};_;{naming};never")) };
         let append = r.chance(2, 3);
-        let mut c = vec![format!("CASE flw C15 s{k}"), spec.clone()];
+        let mut c = vec![format!("CASE flw {prop} s{k}"), spec.clone()];
         c.push(format!("MODE {mode}"));
         c.push(format!("CFG {}", cfg_line(&rot, append, cap, false, has_suffix)));
         let mut clock = Clock::new(&mut r);
@@ -918,6 +921,7 @@ pub fn gen_via_handle(prop: &str, tier: &str, seed: u64) -> Vec<Vec<String>> {
         let (spec, has_suffix) = gen_spec(&mut r, naming);
         c.push(spec);
         c.push(if r.chance(1, 3) { "VIA filewriter".to_string() } else { "VIA logger".to_string() });
+        c.push(format!("NOTE builder-order {}", r.below(4)));
         let n: u64 = *r.pick(&[5, 40, 300]);
         let cleanup = if r.chance(1, 3) && has_suffix { format!("{},{}", r.range(1, 3), r.below(3)) } else { "never".to_string() };
         let rot = if r.chance(1, 5) { None } else { Some(format!("{n};_;{naming};{cleanup}")) };
@@ -995,6 +999,7 @@ pub fn gen_c04(tier: &str, seed: u64) -> Vec<Vec<String>> {
         c.push(spec);
         // the file writer as the logger's primary output, or as an additional writer (`{flw}`)
         c.push(if r.chance(1, 4) { "VIA addwriter".to_string() } else { "VIA logger".to_string() });
+        c.push(format!("NOTE builder-order {}", r.below(4)));
         let n: u64 = *r.pick(&[5, 40, 300]);
         let rot = if r.chance(1, 3) { None } else { Some(format!("{n};_;{naming};never")) };
         let (mode, cap, is_async) = pick_mode(&mut r, &[16, 100, 8192], &[1, 3, 50], &[0, 10, 200]);
